@@ -828,65 +828,7 @@ func TestC05Admission(t *testing.T) {
 	col := NewCollector("TestC05Admission",
 		"rapid: a server configuration (hook none/accept/reject with a drawn message incl. JSON-special and non-ASCII characters, middleware none/ok/fail, allowEIO3, enabled transports) and 12 abstract requests (transport x Origin x sid x method x upgrade x EIO) per case, each instantiated with drawn concrete strings (parameter order, percent-encoding, extra parameters, repeated equal parameters, garbage values, control bytes and positions, header spellings); oracle: reference implementation of the documented precedence -> status, exact JSON {code,message}, exactly one connection_error with that code, registry and ClientsCount unchanged, named/other sessions still open, canary session round-trips; refusal after WebSocket accept -> close frame with the same text. non-trivial: the request fails >= 2 of the documented checks (precedence matters) or is refused after the WebSocket was accepted").Use(t)
 	known5 := isKnown("C05", sigCode5)
-	rapid.Check(t, func(rt *rapid.T) {
-		cfg := admCfg{
-			Hook:      rapid.SampledFrom([]string{"none", "accept", "reject", "reject"}).Draw(rt, "hook"),
-			MW:        rapid.SampledFrom([]string{"none", "none", "ok", "ok", "ok", "fail"}).Draw(rt, "mw"),
-			AllowEIO3: rapid.Bool().Draw(rt, "allowEIO3"),
-			Enabled:   rapid.SampledFrom(admEnabled).Draw(rt, "enabled"),
-		}
-		if cfg.Hook == "reject" {
-			cfg.HookMsg = rapid.OneOf(
-				rapid.SampledFrom([]string{"nope", "", "Forbidden", `he said "no"`, `back\slash`, "line\nbreak", "</script><!--", "tab\there", "ünïcödé 😀", `{"code":0}`, " x"}),
-				rapid.StringMatching(`[ -~]{0,40}`),
-			).Draw(rt, "hookMsg")
-		}
-		if known5 && !cfg.AllowEIO3 {
-			col.Exclude("allowEIO3=false (known finding " + sigCode5 + ")")
-			cfg.AllowEIO3 = true
-		}
-		reqs := make([]admReq, 12)
-		for i := range reqs {
-			reqs[i] = admReq{
-				Transport: rapid.SampledFrom([]string{"polling", "polling", "polling", "websocket", "websocket", "websocket", "absent", "garbage", "webtransport"}).Draw(rt, "transport"),
-				Origin:    rapid.SampledFrom([]string{"absent", "absent", "valid", "valid", "valid", "ctl"}).Draw(rt, "origin"),
-				Sid:       rapid.SampledFrom([]string{"absent", "absent", "absent", "unknown", "polling", "ws", "closed"}).Draw(rt, "sid"),
-				Method:    rapid.SampledFrom([]string{"GET", "GET", "GET", "POST", "OPTIONS", "PUT"}).Draw(rt, "method"),
-				Upgrade:   rapid.Bool().Draw(rt, "upgrade"),
-				EIO:       rapid.SampledFrom(admEIOs).Draw(rt, "eio"),
-			}
-		}
-		journal("C05 %v %v", cfg, reqs)
-		var fail string
-		res := bubble(t, func() {
-			aw, err := newAdmWorld(cfg)
-			if err != nil {
-				fail = "harness fixture: " + err.Error()
-				return
-			}
-			defer aw.close()
-			for _, r := range reqs {
-				exp, f := aw.runCell(rt, r)
-				classes, _ := admClasses(exp)
-				n := failingChecks(cfg, r)
-				if n >= 2 && exp.Reject {
-					classes = append(classes, "precedence-exercised")
-				}
-				col.Case(fmt.Sprint(cfg, r), exp.Outside == "" && ((n >= 2 && exp.Reject) || exp.AfterWS), map[string]any{"config": cfg.String(), "request": r.String(), "expect": fmt.Sprintf("%+v", exp)}, classes...)
-				if f != "" {
-					fail = f
-					return
-				}
-			}
-		})
-		res.rethrow()
-		if fail != "" {
-			rt.Fatalf("%s", fail)
-		}
-		if res.Leak != "" {
-			rt.Fatalf("config %v: %s\n%s", cfg, res.Leak, goroutineDump("engine", "transports"))
-		}
-	})
+	rapid.Check(t, propC05Admission(t, col, known5))
 	req := []string{"reject.code0", "reject.code1", "reject.code2", "reject.code3", "reject.code4", "admitted", "precedence-exercised"}
 	if !known5 {
 		req = append(req, "reject.code5", "reject.after-websocket-accept")
@@ -972,3 +914,66 @@ func TestC05Code5Finding(t *testing.T) {
 }
 
 var _ = sort.Strings
+
+// propC05Admission is the property body of TestC05Admission, shared with the native fuzz target (rapid.MakeFuzz).
+func propC05Admission(t *testing.T, col *Collector, known5 bool) func(rt *rapid.T) {
+	return func(rt *rapid.T) {
+		cfg := admCfg{
+			Hook:      rapid.SampledFrom([]string{"none", "accept", "reject", "reject"}).Draw(rt, "hook"),
+			MW:        rapid.SampledFrom([]string{"none", "none", "ok", "ok", "ok", "fail"}).Draw(rt, "mw"),
+			AllowEIO3: rapid.Bool().Draw(rt, "allowEIO3"),
+			Enabled:   rapid.SampledFrom(admEnabled).Draw(rt, "enabled"),
+		}
+		if cfg.Hook == "reject" {
+			cfg.HookMsg = rapid.OneOf(
+				rapid.SampledFrom([]string{"nope", "", "Forbidden", `he said "no"`, `back\slash`, "line\nbreak", "</script><!--", "tab\there", "ünïcödé 😀", `{"code":0}`, " x"}),
+				rapid.StringMatching(`[ -~]{0,40}`),
+			).Draw(rt, "hookMsg")
+		}
+		if known5 && !cfg.AllowEIO3 {
+			col.Exclude("allowEIO3=false (known finding " + sigCode5 + ")")
+			cfg.AllowEIO3 = true
+		}
+		reqs := make([]admReq, 12)
+		for i := range reqs {
+			reqs[i] = admReq{
+				Transport: rapid.SampledFrom([]string{"polling", "polling", "polling", "websocket", "websocket", "websocket", "absent", "garbage", "webtransport"}).Draw(rt, "transport"),
+				Origin:    rapid.SampledFrom([]string{"absent", "absent", "valid", "valid", "valid", "ctl"}).Draw(rt, "origin"),
+				Sid:       rapid.SampledFrom([]string{"absent", "absent", "absent", "unknown", "polling", "ws", "closed"}).Draw(rt, "sid"),
+				Method:    rapid.SampledFrom([]string{"GET", "GET", "GET", "POST", "OPTIONS", "PUT"}).Draw(rt, "method"),
+				Upgrade:   rapid.Bool().Draw(rt, "upgrade"),
+				EIO:       rapid.SampledFrom(admEIOs).Draw(rt, "eio"),
+			}
+		}
+		journal("C05 %v %v", cfg, reqs)
+		var fail string
+		res := bubble(t, func() {
+			aw, err := newAdmWorld(cfg)
+			if err != nil {
+				fail = "harness fixture: " + err.Error()
+				return
+			}
+			defer aw.close()
+			for _, r := range reqs {
+				exp, f := aw.runCell(rt, r)
+				classes, _ := admClasses(exp)
+				n := failingChecks(cfg, r)
+				if n >= 2 && exp.Reject {
+					classes = append(classes, "precedence-exercised")
+				}
+				col.Case(fmt.Sprint(cfg, r), exp.Outside == "" && ((n >= 2 && exp.Reject) || exp.AfterWS), map[string]any{"config": cfg.String(), "request": r.String(), "expect": fmt.Sprintf("%+v", exp)}, classes...)
+				if f != "" {
+					fail = f
+					return
+				}
+			}
+		})
+		res.rethrow()
+		if fail != "" {
+			rt.Fatalf("%s", fail)
+		}
+		if res.Leak != "" {
+			rt.Fatalf("config %v: %s\n%s", cfg, res.Leak, goroutineDump("engine", "transports"))
+		}
+	}
+}
